@@ -113,7 +113,9 @@ def inplace(case):
 
 _V_CASES = [{"label": "%s,nvec=%d,%s" % (o, n, k), "op": o, "nvec": n, "kind": k}
             for o in IOPS for n in (1, 2, 3) for k in ("Vector", "Array", "number_float")] + \
-           [{"label": "%s,nvec=3,OwnComponent" % o, "op": o, "nvec": 3, "kind": "OwnComponent"} for o in IOPS]
+           [{"label": "%s,nvec=3,OwnComponent" % o, "op": o, "nvec": 3, "kind": "OwnComponent"} for o in IOPS] + \
+           [{"label": "%s,nvec=3,%s" % (o, k), "op": o, "nvec": 3, "kind": k} for o in IOPS
+            for k in ("OwnComponentView",)]
 
 
 @unit("C17", "Vector", targets=[VEC + ":Vector." + o for o in IOPS] + [VEC + ":_binary_op"],
@@ -134,6 +136,12 @@ def inplace_vector(case):
         uw = w.unit
     elif case["kind"] == "OwnComponent":
         w = v.x  # the right operand is one of the vector's own components (aliasing)
+        uw = u
+    elif case["kind"] == "OwnComponentView":
+        w = v.x[:]  # a different Array object on the same buffer as the vector's own component
+        uw = u
+    elif case["kind"] == "OwnComponentReversedView":
+        w = v.y[::-1]
         uw = u
     else:
         w = core.fresh_real("w")
